@@ -1,12 +1,12 @@
 (** C17: re-registration of the date-time unconvert handler never adds or removes a registry key - after every
     history run sequentially and at every point of every interleaving of the atomic steps of any number of threads
     (so [_find_impl], which iterates over registry.keys(), can never see the dictionary change size).
-    [rereg] (does normalize_to_gmt register at all) and [fmt] (what _unconvert_datetime computes) are arbitrary. *)
+    [rereg] (does normalize_to_gmt register at all), [rebinds] (interpreter behaviour) and [fmt] (what _unconvert_datetime computes) are arbitrary. *)
 From OfxV Require Import Base.Prelude Model.Dispatch Proofs.DispatchProofs.
-Theorem registry_keys_constant : forall rereg fmt,
-  (forall ops, map fst (registry (fst (run_ops rereg fmt init_state ops))) = map fst (registry init_state))
+Theorem registry_keys_constant : forall rereg rebinds fmt,
+  (forall ops, map fst (registry (fst (run_ops rereg rebinds fmt init_state ops))) = map fst (registry init_state))
   /\ (forall progs sched,
-        map fst (registry (fst (run_schedule rereg fmt (init_state, map new_thread progs) sched)))
+        map fst (registry (fst (run_schedule rereg rebinds fmt (init_state, map new_thread progs) sched)))
         = map fst (registry init_state)).
 Proof. exact registry_keys_constant_thm. Qed.
 Print Assumptions registry_keys_constant.
